@@ -7,9 +7,6 @@ From GI Require Import Lib.Bytes Gen.CacheConsts Cache.CacheEntry Cache.Cache Ca
 (* re-entrant lookups (a source that looks something up while its Put is in progress) and positioned
    in-memory sources: requests putcb / putsrc of the driver *)
 From GI Require Import Cache.CacheReent.
-(* the segments of cache.go translated by harness/go2coq (Gen/CacheSrc.v) with their library
-   denotations (Cache/SrcLib.v): run by the driver next to the model (requests src...) *)
-From GI Require Lib.GoSem Lib.GoSemSeg Cache.SrcLib Gen.CacheSrc CacheTrim.CacheTrim.
 Extraction Language OCaml.
 Extraction "extracted/cache/model.ml" Byte.of_N Byte.to_N
   parse_entry encode_entry entry_size_n hash_size_n path_name
@@ -19,6 +16,4 @@ Extraction "extracted/cache/model.ml" Byte.of_N Byte.to_N
   new_hash hash_write hash_sum subkey_preimage subkey file_hash set_file_hash fh_lookup
   start sched_step run_conc init_sys finished cstep
   c05_holds_on c05_put_holds_on inv_holds_on c12_holds_on c12_post_holds_on
-  put_cb reader_of_memsrc ms_after_put
-  CacheSrc.src_Cache_get_parse CacheSrc.src_Cache_get_result CacheSrc.src_Cache_putIndexEntry_entry
-  CacheSrc.src_Cache_fileName_body SrcLib.go_time_UnixNano CacheTrim.time_of_ns.
+  put_cb reader_of_memsrc ms_after_put.
